@@ -6,13 +6,16 @@
 
 namespace sim {
 
-enum WideMode { WM_VAL, WM_REF, WM_CREF, WM_RREF, WM_PTR, WM_UPTR };
+enum WideMode { WM_VAL, WM_REF, WM_CREF, WM_RREF, WM_PTR, WM_UPTR, WM_PREF /* reference to the caller's pointer variable */ };
 
 struct WP { const void* addr; long val; bool nc = false; /* seen as a non-const lvalue */ };
 inline WP wp(const int& x) { return WP{&x, x}; }
 // for int& parameters: which overload a clause selects tells whether _N is the caller's modifiable object there
 inline WP wpr(int& x) { return WP{&x, x, true}; }
 inline WP wpr(const int& x) { return WP{&x, x, false}; }
+// for int*& parameters: _N is the caller's pointer variable itself (its address), not a copy of the pointer
+inline WP wpp(int*& p) { return WP{&p, p ? *p : -1, true}; }
+inline WP wpp(int* const& p) { return WP{&p, p ? *p : -1, false}; }
 inline WP wp(int* const& p) { return WP{p, p ? *p : -1}; }
 inline WP wp(const std::unique_ptr<Tracked>& p) { return WP{p.get(), p ? p->v : -1}; }
 inline WP wp(trompeloeil::illegal_argument const&) { return WP{nullptr, -2}; }
